@@ -25,19 +25,35 @@ Lemma iszs_cons x t : iszs (x :: t) = (isz x + iszs t)%nat. Proof. reflexivity. 
 Lemma icnts_cons x t : icnts (x :: t) = (icnt x + icnts t)%nat. Proof. reflexivity. Qed.
 Lemma enc_items_cons x t : enc_items (x :: t) = enc_item x ++ enc_items t. Proof. reflexivity. Qed.
 
+Lemma rsizes_cons x t : rsizes (x :: t) = (rsize x + rsizes t)%nat.
+Proof. reflexivity. Qed.
+
+Lemma pkg_tree_rsize h tbl b off k n elems : rsize (pkg_tree h tbl b off k n elems) = (3 + length elems)%nat.
+Proof.
+  unfold pkg_tree. rewrite rsize_eq, rsizes_cons, rsizes_cons, !rsize_eq, leaf_row_rsizes, len_cst_pays. cbn [rsizes fold_right]. lia.
+Qed.
+
+Lemma pkg_tree_nodes h tbl b off k n elems x : In x (rnodes (pkg_tree h tbl b off k n elems)) <-> b <= x < b + 3 + N.of_nat (length elems).
+Proof.
+  unfold pkg_tree. rewrite rnodes_eq. unfold rnodesl. cbn [flat_map]. rewrite !rnodes_eq. cbn [rnodesl flat_map app In]. rewrite !app_nil_r.
+  fold (rnodesl (leaf_row (b + 3) (cst_pays h tbl (off + 1 + k + 1) elems))).
+  pose proof (leaf_row_nodes (b + 3) (cst_pays h tbl (off + 1 + k + 1) elems) x) as Hl. rewrite len_cst_pays in Hl. rewrite Hl. lia.
+Qed.
+
 Lemma lay1_rsizes h tbl : forall l b off, rsizes (lay1 h tbl b off l) = iszs l.
 Proof.
-  induction l as [|d rest IH|bk k seg fa body rest IHb IH|lk seg fa ta rest IH] using items_ind; intros b off; [reflexivity| | |].
+  induction l as [|d rest IH|bk k seg fa body rest IHb IH|lk seg fa ta rest IH|seg k n elems rest IH] using items_ind; intros b off; [reflexivity| | | |].
   - rewrite lay1_cons, rsizes_app, IH, iszs_cons. reflexivity.
   - rewrite lay1_cons, rsizes_app, IH, iszs_cons, lay1_blk, isz_blk. cbn [rsizes fold_right]. rewrite !rsize_eq.
     rewrite rsizes_app, leaf_row_rsizes, len_hd_pays. cbn [rsizes fold_right]. rewrite rsize_eq, IHb. lia.
   - rewrite lay1_cons, rsizes_app, IH, iszs_cons, isz_leaf. cbn [lay1_item rsizes fold_right]. rewrite rsize_eq.
     fold (rsizes (leaf_row (b + 2 + nlf lk fa) (cst_pays h tbl (ta_off lk off fa) ta))). rewrite !leaf_row_rsizes, len_lhd_pays, len_cst_pays. lia.
+  - rewrite lay1_cons, rsizes_app, IH, iszs_cons, isz_pkg. cbn [lay1_item]. rewrite rsizes_cons, rsizes_cons, pkg_tree_rsize, rsize_eq, rsizes_cons, rsize_eq. cbn [rsizes fold_right]. lia.
 Qed.
 
 Lemma lay1_nodes h tbl : forall l b off x, In x (rnodesl (lay1 h tbl b off l)) -> b <= x < b + N.of_nat (iszs l).
 Proof.
-  induction l as [|d rest IH|bk k seg fa body rest IHb IH|lk seg fa ta rest IH] using items_ind; intros b off x Hx; [contradiction| | |].
+  induction l as [|d rest IH|bk k seg fa body rest IHb IH|lk seg fa ta rest IH|seg k n elems rest IH] using items_ind; intros b off x Hx; [contradiction| | | |].
   - rewrite lay1_cons, rnodesl_app in Hx. rewrite iszs_cons. apply in_app_or in Hx. destruct Hx as [Hx|Hx].
     + cbn [lay1_item rnodesl flat_map rnodes app In] in Hx. cbn [isz]. lia.
     + apply IH in Hx. cbn [isz] in *. lia.
@@ -53,6 +69,10 @@ Proof.
       fold (rnodesl (leaf_row (b + 2 + nlf lk fa) (cst_pays h tbl (ta_off lk off fa) ta))) in Hx. unfold nlf in Hx.
       destruct Hx as [<-|Hx]; [lia|]. apply in_app_or in Hx. destruct Hx as [Hx|Hx]; apply leaf_row_nodes in Hx; rewrite ?len_lhd_pays, ?len_cst_pays in Hx; lia.
     + apply IH in Hx. rewrite isz_leaf in Hx. lia.
+  - rewrite lay1_cons, rnodesl_app in Hx. rewrite iszs_cons, isz_pkg. apply in_app_or in Hx. destruct Hx as [Hx|Hx].
+    + cbn [lay1_item] in Hx. unfold rnodesl in Hx. cbn [flat_map] in Hx. rewrite app_nil_r in Hx. apply in_app_or in Hx.
+      destruct Hx as [Hx|Hx]; [rewrite rnodes_eq in Hx; cbn [rnodesl flat_map rnodes app In] in Hx; lia|apply pkg_tree_nodes in Hx; lia].
+    + apply IH in Hx. rewrite isz_pkg in Hx. lia.
 Qed.
 
 (** ---- what the first pass does to the forest and the payloads ---- *)
@@ -272,6 +292,66 @@ Proof.
         unfold news. cbn [app]. rewrite nth_error_S, nth_error_app2 by (rewrite Hlh; lia). rewrite Hlh. replace (S nf + i - S nf)%nat with i by lia. exact Hi.
       * rewrite HK. destruct (N.eqb_spec (b + 2 + N.of_nat nf + N.of_nat i) sc); [lia|]. destruct (N.eqb_spec (b + 2 + N.of_nat nf + N.of_nat i) b); [lia|]. apply Hoob. lia.
   - intros x Hx Hne. rewrite HK. apply N.eqb_neq in Hne. rewrite Hne. destruct (N.eqb_spec x b); [lia|reflexivity].
+  - intros x Hx. apply pget_app_old. exact Hx.
+Qed.
+
+Lemma post1_pkg g pl sc h tbl seg k n elems off :
+  sc < N.of_nat (length pl) -> length (g_kids g) = length pl ->
+  let b := N.of_nat (length pl) in
+  Post1 g pl (g_args (g_args (g_head (g_name g sc) sc) (b + 2) 2) (b + 4) (length elems))
+        (pl ++ [nam_pay h off name_zero; pth_pay h tbl (off + 1); pkg_pay h (off + 5); num_pay h W1 (off + 5 + 1 + k) n; sb_pay h (off + 5 + 1 + k + 1)] ++
+               cst_pays h tbl (off + 5 + 1 + k + 1) elems) sc
+        (lay1_item h tbl b off (IPkg seg k n elems)).
+Proof.
+  intros Hsc Hlg b. set (m := length elems).
+  set (hd5 := [nam_pay h off name_zero; pth_pay h tbl (off + 1); pkg_pay h (off + 5); num_pay h W1 (off + 5 + 1 + k) n; sb_pay h (off + 5 + 1 + k + 1)]).
+  set (cs := cst_pays h tbl (off + 5 + 1 + k + 1) elems). assert (Hlc : length cs = m) by apply len_cst_pays.
+  set (G1 := g_head (g_name g sc) sc).
+  assert (HlG1 : length (g_kids G1) = (length pl + 3)%nat) by (unfold G1; rewrite len_g_head, len_g_name, Hlg; lia).
+  assert (Hoob : forall i, b <= i -> kids g i = []) by (intros i Hi; apply kids_oob; rewrite Hlg; exact Hi).
+  assert (HK1 : forall i, kids G1 i = if i =? sc then kids g sc ++ [b; b + 2] else if i =? b then [b + 1] else kids g i).
+  { intros i. unfold G1. rewrite kids_step by (rewrite Hlg; exact Hsc). cbv zeta. rewrite Hlg. reflexivity. }
+  set (G2 := g_args G1 (b + 2) 2).
+  assert (HlG2 : length (g_kids G2) = (length pl + 5)%nat) by (unfold G2; rewrite len_g_args, HlG1; lia).
+  assert (HK2 : forall i, kids G2 i = if i =? b + 2 then [b + 3; b + 4] else kids G1 i).
+  { intros i. unfold G2. rewrite kids_g_args by (rewrite HlG1; unfold b; lia). rewrite HlG1.
+    destruct (N.eqb_spec i (b + 2)) as [->|_]; [|reflexivity]. rewrite HK1. destruct (N.eqb_spec (b + 2) sc); [lia|]. destruct (N.eqb_spec (b + 2) b); [lia|].
+    rewrite (Hoob (b + 2)) by lia. cbn [seqN app]. f_equal; [unfold b; lia|f_equal; unfold b; lia]. }
+  assert (HK : forall i, kids (g_args G2 (b + 4) m) i =
+             if i =? b + 4 then seqN (b + 5) m else if i =? b + 2 then [b + 3; b + 4] else if i =? sc then kids g sc ++ [b; b + 2] else if i =? b then [b + 1] else kids g i).
+  { intros i. rewrite kids_g_args by (rewrite HlG2; unfold b; lia). rewrite HlG2, !HK2, !HK1.
+    destruct (N.eqb_spec i (b + 4)) as [->|_]; [|reflexivity].
+    destruct (N.eqb_spec (b + 4) (b + 2)); [lia|]. destruct (N.eqb_spec (b + 4) sc); [lia|]. destruct (N.eqb_spec (b + 4) b); [lia|].
+    rewrite (Hoob (b + 4)) by lia. cbn [app]. f_equal. unfold b. lia. }
+  assert (Hp : forall c, pget (pl ++ hd5 ++ cs) (b + c) = pget (hd5 ++ cs) c) by (intros c; unfold b; apply pget_app_new).
+  fold hd5 cs G1 G2. cbn [lay1_item pkg_tree]. fold cs. constructor.
+  - apply free_g_args. apply free_g_args. reflexivity.
+  - rewrite app_length, app_length. unfold cs at 1. rewrite len_cst_pays. cbn [length hd5]. rewrite rsizes_cons, rsizes_cons, rsize_eq, rsizes_cons, rsize_eq.
+    change (RN (b + 2) (pkg_pay h (off + 5)) [RN (b + 2 + 1) (num_pay h W1 (off + 5 + 1 + k) n) []; RN (b + 2 + 2) (sb_pay h (off + 5 + 1 + k + 1)) (leaf_row (b + 2 + 3) cs)])
+      with (pkg_tree h tbl (b + 2) (off + 5) k n elems). rewrite pkg_tree_rsize. cbn [rsizes fold_right]. fold m. lia.
+  - rewrite HK. destruct (N.eqb_spec sc (b + 4)); [lia|]. destruct (N.eqb_spec sc (b + 2)); [lia|]. rewrite N.eqb_refl. reflexivity.
+  - assert (Hk_leaf : forall y, (y = b + 1 \/ y = b + 3 \/ b + 5 <= y) -> kids (g_args G2 (b + 4) m) y = []).
+    { intros y Hy. rewrite HK. destruct (N.eqb_spec y (b + 4)); [lia|]. destruct (N.eqb_spec y (b + 2)); [lia|]. destruct (N.eqb_spec y sc); [lia|].
+      destruct (N.eqb_spec y b); [lia|]. apply Hoob. lia. }
+    constructor; [|constructor; [|constructor]].
+    + constructor.
+      * rewrite <- (N.add_0_r b). rewrite Hp. reflexivity.
+      * rewrite HK. destruct (N.eqb_spec b (b + 4)); [lia|]. destruct (N.eqb_spec b (b + 2)); [lia|]. destruct (N.eqb_spec b sc); [lia|]. rewrite N.eqb_refl. reflexivity.
+      * constructor; [|constructor]. constructor; [rewrite Hp; reflexivity|apply Hk_leaf; lia|constructor].
+    + constructor.
+      * rewrite Hp. reflexivity.
+      * rewrite HK. destruct (N.eqb_spec (b + 2) (b + 4)); [lia|]. rewrite N.eqb_refl. cbn [map ridx]. f_equal; [lia|f_equal; lia].
+      * constructor; [|constructor; [|constructor]].
+        -- constructor; [replace (b + 2 + 1) with (b + 3) by lia; rewrite Hp; reflexivity|apply Hk_leaf; lia|constructor].
+        -- constructor.
+           ++ replace (b + 2 + 2) with (b + 4) by lia. rewrite Hp. reflexivity.
+           ++ replace (b + 2 + 2) with (b + 4) by lia. rewrite HK, N.eqb_refl, leaf_row_idx. unfold cs. rewrite len_cst_pays. fold m. f_equal. lia.
+           ++ apply leaf_row_desc. intros i p Hi. assert (Hilt : (i < m)%nat) by (rewrite <- Hlc; apply nth_error_Some; unfold cs; rewrite Hi; discriminate).
+              split; [|apply Hk_leaf; lia].
+              replace (b + 2 + 3 + N.of_nat i) with (b + N.of_nat (5 + i)) by lia. rewrite Hp. unfold pget. rewrite Nat2N.id.
+              rewrite nth_error_app2 by (cbn [length hd5]; lia). cbn [length hd5]. replace (5 + i - 5)%nat with i by lia. exact Hi.
+  - intros x Hx Hne. rewrite HK. destruct (N.eqb_spec x (b + 4)); [lia|]. destruct (N.eqb_spec x (b + 2)); [lia|].
+    apply N.eqb_neq in Hne. rewrite Hne. destruct (N.eqb_spec x b); [lia|reflexivity].
   - intros x Hx. apply pget_app_old. exact Hx.
 Qed.
 
@@ -624,13 +704,123 @@ Proof.
   clear Hx. rename Hx' into Hx. apply lay1_nodes in Hx. cbn [iszs fold_right] in Hx. rewrite isz_leaf in Hx. fold l nf nt in Hx. rewrite Hl2. unfold b in *. lia.
 Qed.
 
+Ltac lnorm := repeat (first [rewrite <- app_assoc | progress cbn [app]]).
+
+Lemma ispec_pkg seg k n elems rest : ISpec rest -> ISpec (IPkg seg k n elems :: rest).
+Proof.
+  intros IH fo fi off e t sc ss es g pl pre post a R Q H Hfree Hroom Hd Ho He Hel Hok Hbal Hsc Hlsc HR Hfi Hfo K.
+  apply forallb_item_cons in Hok. destruct Hok as [Hd_ok Hok]. cbn [item_okb] in Hd_ok.
+  apply andb_prop in Hd_ok. destruct Hd_ok as [Hx Hel_ok]. apply andb_prop in Hx. destruct Hx as [Hx Hpk]. apply pkglen_okb_adm in Hpk.
+  apply andb_prop in Hx. destruct Hx as [Hx Hn]. apply N.ltb_lt in Hn. apply andb_prop in Hx. destruct Hx as [Hlead _].
+  set (m := length elems) in *.
+  rewrite iszs_cons, isz_pkg in Hroom. rewrite icnts_cons in Hfi, Hfo. cbn [icnt] in Hfi, Hfo. fold m in Hroom, Hfi, Hfo.
+  rewrite enc_items_cons, enc_pkg_item in Hd, He. subst off.
+  set (v := k + lenN ([n] ++ enc_ta elems)) in *.
+  assert (Hv : v = k + 1 + lenN (enc_ta elems)) by (unfold v; rewrite lenN_app; change (lenN [n]) with 1; lia).
+  pose proof (lenN_enc_pkglen k v Hpk) as Hlk.
+  pose proof (rep_len_g _ _ _ H) as Hlg. pose proof (rep_len_pool _ _ _ H) as Hlp.
+  assert (Hsclt : sc < N.of_nat (length pl)) by (eapply pget_lt; eauto).
+  assert (Ef : exists f', fi = S (S (S (S (S (S (S (S (S (m + f')))))))))) by (exists (fi - m - 9)%nat; lia). destruct Ef as (f' & ->).
+  set (b := N.of_nat (length pl)) in *.
+  set (s0 := st1 (lenN pre) e t (sc :: ss) (e :: es)).
+  assert (HlenI : lenN (OP_NAME :: seg_bytes seg ++ [OP_PACKAGE] ++ enc_pkglen k v ++ [n] ++ enc_ta elems) = 5 + 1 + v).
+  { rewrite lenN_cons, !lenN_app, Hlk. change (lenN (seg_bytes seg)) with 4. change (lenN [OP_PACKAGE]) with 1. change (lenN [n]) with 1. lia. }
+  rewrite lenN_app, HlenI in He.
+  assert (Hat0 : at_token (p_r s0) pre (OP_NAME :: seg_bytes seg ++ ([OP_PACKAGE] ++ enc_pkglen k v ++ [n] ++ enc_ta elems) ++ enc_items rest) post).
+  { apply mk_at; [ |reflexivity| |exact Hel|exact Hlen|exact Hsmall|exact Hbytes].
+    - rewrite Hd. lnorm. reflexivity.
+    - rewrite lenN_cons, !lenN_app, Hlk. change (lenN (seg_bytes seg)) with 4. change (lenN [OP_PACKAGE]) with 1. change (lenN [n]) with 1. lia. }
+  (* the Name object *)
+  apply wp_list_cont_S. unfold eofM, rq. apply wp_bind, wp_get. rewrite (at_not_eof _ _ _ _ _ Hat0).
+  apply wp_bind. eapply wp_conseq.
+  { eapply (next_name _ s0 g pl pre seg _ post sc ss a); [exact H|exact Hfree|lia|exact Hat0|exact Hlead|reflexivity|exact Hsc|exact Hlsc|reflexivity]. }
+  intros res s1 (-> & t1 & -> & H1). change (pres_eqb ROk ROk) with true. cbv iota.
+  set (pl1 := pl ++ [mkPay aml_pOpName 3 (p_handle s0) name_zero (lenN pre) 0 None; path_pay s0 (lenN pre + 1) 4]) in *.
+  assert (Hl1 : length pl1 = S (S (length pl))) by (unfold pl1; rewrite app_length; cbn [length]; lia).
+  assert (Hsc1 : pget pl1 sc = Some a) by (unfold pl1; rewrite pget_app_old by exact Hsclt; exact Hsc).
+  set (pre1 := pre ++ OP_NAME :: seg_bytes seg).
+  assert (Hlp1 : lenN pre1 = lenN pre + 5).
+  { unfold pre1. rewrite lenN_app, lenN_cons. change (lenN (seg_bytes seg)) with 4. lia. }
+  set (s1 := st1 (lenN pre + 5) e t1 (sc :: ss) (e :: es)).
+  change (with_tree (with_r s0 (set_offset_raw (p_r s0) (lenN pre + 5))) t1) with s1.
+  assert (Hat1 : at_token (p_r s1) pre1 (enc_op aml_pOpPackage ++ enc_pkglen k v ++ enc_fx [(W1, n)] ++ (enc_ta elems ++ enc_items rest)) post).
+  { pose proof (at_adv (p_r s0) pre (OP_NAME :: seg_bytes seg) _ post Hat0) as A.
+    rewrite lenN_cons in A. change (lenN (seg_bytes seg)) with 4 in A. replace (lenN pre + (1 + 4)) with (lenN pre + 5) in A by lia.
+    cbn [enc_fx fw_enc]. rewrite app_nil_r. revert A. lnorm. intros A. exact A. }
+  (* the header of the Package *)
+  apply wp_list_cont_S. unfold eofM, rq. apply wp_bind, wp_get.
+  assert (Hne : eof (p_r s1) = false) by (change (enc_op aml_pOpPackage) with [0x12] in Hat1; cbn [app] in Hat1; apply (at_not_eof _ _ _ _ _ Hat1)).
+  rewrite Hne.
+  apply wp_bind. eapply wp_conseq.
+  { eapply (next_pkg (m + f') s1 _ pl1 pre1 k v n _ post sc ss a);
+      [exact H1|apply free_g_name|rewrite Hl1; lia|exact Hat1|exact Hn|exact Hpk|lia| |reflexivity|exact Hsc1|exact Hlsc|reflexivity].
+    rewrite Hlp1. cbn [s1 st1 p_r r_len]. lia. }
+  intros res s2 (-> & t2 & -> & H2). change (pres_eqb ROk ROk) with true. cbv iota. rewrite Hlp1 in H2 |- *.
+  set (off1 := lenN pre + 5 + 1 + k + 1). set (e1 := lenN pre + 5 + 1 + v).
+  set (pl2 := pl1 ++ pkg_pays' s1 (lenN pre + 5) k n) in *.
+  assert (Hl2 : length pl2 = (5 + length pl)%nat) by (unfold pl2; rewrite app_length, Hl1; cbn [pkg_pays' length]; lia).
+  set (s2 := st1 off1 e1 t2 (b + 4 :: sc :: ss) (e1 :: e :: es)).
+  assert (Es2 : after_blk s1 2 off1 e1 t2 = s2).
+  { unfold after_blk, s2, s1, st1. scbn. unfold set_pkgEnd_raw, set_offset_raw. cbn [r_data r_len r_offset r_pkgEnd p_r p_tree].
+    rewrite <- (rep_len_pool _ _ _ H1), Hl1. replace (N.of_nat (S (S (length pl))) + 2) with (b + 4) by (unfold b; lia). reflexivity. }
+  rewrite Es2.
+  (* the elements *)
+  set (pre2 := pre1 ++ [OP_PACKAGE] ++ enc_pkglen k v ++ [n]).
+  assert (Hlp2 : lenN pre2 = off1).
+  { unfold pre2, off1. rewrite !lenN_app, Hlp1, Hlk. change (lenN [OP_PACKAGE]) with 1. change (lenN [n]) with 1. lia. }
+  assert (Hsb2 : pget pl2 (b + 4) = Some (sb_pay h off1)).
+  { unfold pl2. replace (b + 4) with (N.of_nat (length pl1) + 2) by (rewrite Hl1; unfold b; lia). rewrite pget_app_new. reflexivity. }
+  replace (S (S (S (S (S (S (S (m + f')))))))) with (m + S (S (S (S (S (S (S (f'))))))))%nat by lia.
+  eapply (cst_loop elems fo _ off1 e1 t2 (b + 4) (sc :: ss) (e :: es) _ pl2 pre2 (enc_items rest ++ post) _ Q);
+    [exact H2|apply free_g_args; reflexivity|rewrite Hl2; fold m; lia| |symmetry; exact Hlp2| | |exact Hel_ok|exact Hsb2|discriminate|].
+  { unfold pre2, pre1. rewrite Hd. lnorm. reflexivity. }
+  { rewrite Hlp2. unfold off1, e1. lia. }
+  { unfold e1. lia. }
+  intros t3 H3.
+  (* the end of the Package *)
+  apply wp_list_cont_S. unfold eofM, rq. apply wp_bind, wp_get.
+  assert (Eeof : eof (p_r (st1 (off1 + lenN (enc_ta elems)) e1 t3 (b + 4 :: sc :: ss) (e1 :: e :: es))) = true).
+  { unfold eof. cbn [st1 p_r r_pkgEnd r_offset]. apply N.leb_le. unfold e1, off1. lia. }
+  rewrite Eeof.
+  destruct fo as [|fo']; [lia|].
+  apply wp_list_end; [exact Hbal|exact Hel|].
+  (* the rest *)
+  set (pl3 := pl2 ++ cst_pays h tbl off1 elems) in *.
+  assert (Hpl3 : pl3 = pl ++ [nam_pay h (lenN pre) name_zero; pth_pay h tbl (lenN pre + 1); pkg_pay h (lenN pre + 5); num_pay h W1 (lenN pre + 5 + 1 + k) n; sb_pay h (lenN pre + 5 + 1 + k + 1)] ++
+                         cst_pays h tbl (lenN pre + 5 + 1 + k + 1) elems).
+  { unfold pl3, pl2, pl1. rewrite <- !app_assoc. reflexivity. }
+  assert (Hl3 : length pl3 = (length pl + 5 + m)%nat) by (unfold pl3; rewrite app_length, Hl2, len_cst_pays; fold m; lia).
+  set (pre3 := pre2 ++ enc_ta elems).
+  assert (Hlp3 : lenN pre3 = off1 + lenN (enc_ta elems)) by (unfold pre3; rewrite lenN_app, Hlp2; reflexivity).
+  assert (P01 : Post1 g pl (g_args (g_args (g_head (g_name g sc) sc) (b + 2) 2) (b + 4) m) pl3 sc (lay1_item h tbl b (lenN pre) (IPkg seg k n elems))).
+  { rewrite Hpl3. apply post1_pkg; [exact Hsclt|exact Hlg]. }
+  assert (Hsc3 : pget pl3 sc = Some a) by (rewrite (p1_old_p _ _ _ _ _ _ P01) by exact Hsclt; exact Hsc).
+  replace (N.of_nat (length pl1)) with (b + 2) in H3 by (rewrite Hl1; unfold b; lia).
+  eapply (IH fo' _ (off1 + lenN (enc_ta elems)) e t3 sc ss es _ pl3 pre3 post a R Q);
+    [exact H3|apply free_g_args; apply free_g_args; reflexivity|rewrite Hl3; lia| |symmetry; exact Hlp3| |exact Hel|exact Hok|exact Hbal|exact Hsc3|exact Hlsc|exact HR|lia|lia|].
+  { unfold pre3, pre2, pre1. rewrite Hd. lnorm. reflexivity. }
+  { rewrite Hlp3. unfold off1. lia. }
+  intros t4 g4 pl4 fo4 fi4 H4 P4 Hfi4 Hfo4.
+  specialize (K t4 g4 pl4 fo4 fi4 H4).
+  rewrite lay1_cons, isz_pkg in K. fold b m in K.
+  replace (b + N.of_nat (5 + m)) with (N.of_nat (length pl3)) in K by (rewrite Hl3; unfold b; lia).
+  rewrite enc_items_cons, lenN_app, enc_pkg_item in K. fold v in K. rewrite HlenI in K.
+  replace (lenN pre + (5 + 1 + v)) with (off1 + lenN (enc_ta elems)) in K by (unfold off1; lia).
+  replace (lenN pre + (5 + 1 + v + lenN (enc_items rest))) with (off1 + lenN (enc_ta elems) + lenN (enc_items rest)) in K by (unfold off1; lia).
+  apply K; [|exact Hfi4|exact Hfo4].
+  eapply Post1_app; [exact Hsclt| |exact P01|exact P4].
+  intros x Hx. assert (Hx' : In x (rnodesl (lay1 h tbl b (lenN pre) [IPkg seg k n elems]))) by (cbn [lay1]; rewrite app_nil_r; exact Hx).
+  clear Hx. rename Hx' into Hx. apply lay1_nodes in Hx. cbn [iszs fold_right] in Hx. rewrite isz_pkg in Hx. fold m in Hx. rewrite Hl3. unfold b in *. lia.
+Qed.
+
 Theorem ispec_all : forall its, ISpec its.
 Proof.
-  induction its as [|d rest IH|bk k seg fa body rest IHb IH|lk seg fa ta rest IH] using items_ind.
+  induction its as [|d rest IH|bk k seg fa body rest IHb IH|lk seg fa ta rest IH|seg k n elems rest IH] using items_ind.
   - apply ispec_nil.
   - apply ispec_name. exact IH.
   - apply ispec_blk; assumption.
   - apply ispec_leaf; assumption.
+  - apply ispec_pkg; assumption.
 Qed.
 End ItemsSpec.
 
